@@ -161,7 +161,9 @@ class Scipy(AbstractIntegrator):
         for _ in range(max_steps):
             y2 = integ.integrate(t)
             diff = (y2 - y1) / y1 if rel_norm else y2 - y1
-            if np.linalg.norm(diff, ord=2) < tolerance:
+            # A step the solver did not complete (it gave up before t, e.g. on a
+            # diverging model, and keeps returning the same state) shows nothing
+            if integ.t >= t and np.linalg.norm(diff, ord=2) < tolerance:
                 return Result(
                     TimeCourse(
                         time=np.array([t], dtype=float),
